@@ -473,6 +473,10 @@ impl EventBuffer {
             if let Some(record) = self.events.remove_first(T::is_type) {
                 T::decrement_type(&mut self.total.types);
                 self.total.classes.decrement(record.class);
+                // the discarded event may be part of a response that is awaiting confirmation
+                if record.state.get() == EventState::Written {
+                    self.written.decrement(&record);
+                }
                 self.is_overflown = true;
                 Err(InsertError::Overflow {
                     created: id,
